@@ -2,7 +2,7 @@
 import ast
 import re
 
-from sa.astutil import (guard_atoms, norm, guards_of, walk_no_nested, always_exits, parent, enclosing, stmt_of,
+from sa.astutil import (reaching_value, guard_atoms, norm, guards_of, walk_no_nested, always_exits, parent, enclosing, stmt_of,
                         preceding_stmts, body_walk, qualname)
 from sa.errors import AnalysisError
 from sa.minieval import Evaluator, Obj
@@ -62,7 +62,12 @@ def rule_visitor(repo):
         for fld in fields:
             tgt = f"{node}.{fld}"
             covered = False
+            # (the resolved path: what sits inside an early `if not obj_name: ...; return` does not count for it)
+            early_ids = {id(x) for st in f.body if isinstance(st, ast.If) and not st.orelse and st.body and isinstance(st.body[-1], ast.Return)
+                         and 'obj_name' in norm(st.test) for b in st.body for x in ast.walk(b)}
             for c in ast.walk(f):
+                if id(c) in early_ids:
+                    continue
                 if isinstance(c, ast.Call) and norm(c.func) in ('self.visit', 'self._get_full_name', 'self.generic_visit') \
                         and c.args and norm(c.args[0]) in (tgt, node) and not (norm(c.args[0]) == node and norm(c.func) == 'self._get_full_name'):
                     covered = True
@@ -74,6 +79,27 @@ def rule_visitor(repo):
                         covered = True
             if not covered and full_self and fld == 'value' and kind in ('Attribute', 'Subscript'):
                 covered = True      # the chain below the node is consumed by _get_full_name(node)
+            # the visit also happens when the name does not resolve (`f(s.a)[s.i:s.i+4]`, `g(s.a).m(s.b)`): it is not
+            # behind the early `if not obj_name: return`
+            if covered and not (fld == 'value' and kind in ('Attribute', 'Subscript')) and tgt != f"{node}.func":
+                early = [i for i, st in enumerate(f.body) if isinstance(st, ast.If) and not st.orelse and st.body and
+                         isinstance(st.body[-1], ast.Return) and 'obj_name' in norm(st.test)]
+                if early:
+                    i0 = early[0]
+                    reach = list(f.body[:i0]) + list(f.body[i0].body)
+                    on_unresolved = False
+                    for st in reach:
+                        for c in ast.walk(st):
+                            if isinstance(c, ast.Call) and norm(c.func) in ('self.visit', 'self.generic_visit') and c.args and norm(c.args[0]) in (tgt, node):
+                                on_unresolved = True
+                            if isinstance(c, ast.For) and norm(c.iter) == tgt:
+                                on_unresolved = True
+                    if not on_unresolved:
+                        r.bad(m, f"DetectReadsWritesCalls.{name}", f"{name}: child `{fld}` when the name does not resolve",
+                              f"`{tgt}` is visited only after `if {norm(f.body[i0].test)}: return`: when the base of the expression is a call result "
+                              f"(e.g. concat(s.a, s.b)[s.i:s.i+4], f(s.a).m(s.b)) the signals read under ast.{kind}.{fld} are missing "
+                              f"from the block's read set and the block is not ordered after their writers", f.body[i0].lineno)
+                        continue
             # a visit that sits behind an early `return` still counts only if the return is the unresolvable-name case
             cons = f"{name}: child `{fld}`"
             if covered:
@@ -134,6 +160,49 @@ def rule_visitor(repo):
                               "arguments of a call used as an index are not all visited", chain[0].lineno)
         if not found:
             raise AnalysisError(f"{f.name}: index loop not found")
+        # the base of the chain: every kind for which no name is produced (`return None, None`) is either a leaf or visited
+        nones = [n for n in ast.walk(f) if isinstance(n, ast.Return) and isinstance(n.value, ast.Tuple) and
+                 all(isinstance(e, ast.Constant) and e.value is None for e in n.value.elts)]
+        if not nones:
+            raise AnalysisError(f"{f.name}: the unresolvable-base returns were not found")
+        for ret in nones:
+            par = getattr(ret, '_parent', None)
+            if not isinstance(par, ast.If):
+                raise AnalysisError(f"{f.name}:{ret.lineno}: `return None, None` outside a case split")
+            in_body = ret in par.body
+            blk = par.body if in_body else par.orelse
+            before = blk[:blk.index(ret)]
+            visited = any(isinstance(c, ast.Call) and norm(c.func) in ('self.visit', 'self.generic_visit') and c.args and norm(c.args[0]) == 'node'
+                          for st in before for c in ast.walk(st))
+            kinds = []
+            if in_body:
+                kinds = re.findall(r'ast\.(\w+)', norm(par.test)) if norm(par.test).startswith('isinstance(node') else None
+            else:
+                for st in before:
+                    if isinstance(st, ast.Assert) and norm(st.test).startswith('isinstance(node'):
+                        kinds = re.findall(r'ast\.(\w+)', norm(st.test))
+                if not kinds:
+                    kinds = None
+            if kinds is None:
+                leaf = False
+                what = 'any other kind of expression'
+            else:
+                def has_children(k):
+                    cls = getattr(ast, k, None)
+                    if cls is None:
+                        raise AnalysisError(f"unknown ast kind {k}")
+                    return any(x not in NON_NODE_FIELDS and x not in ('value', 'kind', 's', 'n') for x in cls._fields) if k in ('Str', 'Num', 'Constant', 'Bytes', 'NameConstant') \
+                        else any(x not in NON_NODE_FIELDS for x in cls._fields)
+                leaf = not any(has_children(k) for k in kinds)
+                what = '/'.join(kinds)
+            cons = f"{f.name}: base of kind {what} yields no name"
+            if leaf or visited:
+                r.ok(m, f"DetectVarNames.{f.name}", cons + (' (leaf)' if leaf else ' and is visited'))
+            else:
+                r.bad(m, f"DetectVarNames.{f.name}", cons,
+                      f"an expression whose base is a {what} (e.g. concat(s.a, s.b)[0:4], f(s.x).y) returns no name without visiting the base: "
+                      f"the signals read in its arguments are missing from the block's read set, so the block is not ordered after their writers",
+                      ret.lineno)
     # extract_reads_writes_calls feeds every statement of the block to the visitor
     g = m.functions.get('extract_reads_writes_calls')
     if g is None:
@@ -143,7 +212,7 @@ def rule_visitor(repo):
         'visitor.enter' in norm(loops[0].body[0]) and [norm(a) for a in loops[0].body[0].value.args][1:] == ['read', 'write', 'calls']
     (r.ok if ok else r.bad)(m, 'extract_reads_writes_calls', 'for stmt in tree.body: visitor.enter(stmt, read, write, calls)',
                             *([] if ok else ["not every statement of the update block is analysed", g.lineno]))
-    r.require_floor(14)
+    r.require_floor(18)
     return r
 
 
@@ -194,6 +263,27 @@ def rule_funcfold(repo):
         ok = not gs and not any(isinstance(x, (ast.Continue, ast.Break)) for x in ast.walk(loops[0]))
     (r.ok if ok else r.bad)(m, 'ComponentLevel2._collect_vars.dfs', 'recursion into every callee',
                             *([] if ok else ["not every called function is expanded", d.lineno]))
+    # cycle detection is along the CURRENT call path only: the on-path marker set before the recursive call is removed after it
+    if loops:
+        lp0 = loops[0]
+        v = norm(lp0.target)
+        marks = [n for n in ast.walk(lp0) if isinstance(n, ast.If) and isinstance(n.test, ast.Compare) and len(n.test.ops) == 1
+                 and isinstance(n.test.ops[0], ast.In) and norm(n.test.left) == v and any(isinstance(x, ast.Raise) for x in ast.walk(n))]
+        if marks:
+            X = norm(marks[0].test.comparators[0])
+            recs = [st for st in lp0.body if any(isinstance(c, ast.Call) and norm(c.func) == 'dfs' for c in ast.walk(st))]
+            ok2 = False
+            if recs:
+                i = lp0.body.index(recs[0])
+                before = any(isinstance(st, ast.Assign) and norm(st.targets[0]) == f"{X}[{v}]" for st in lp0.body[:i])
+                after = any((isinstance(st, ast.Delete) and any(norm(t) == f"{X}[{v}]" for t in st.targets)) or
+                            (isinstance(st, ast.Expr) and isinstance(st.value, ast.Call) and norm(st.value.func) in (f"{X}.pop", f"{X}.__delitem__")
+                             and st.value.args and norm(st.value.args[0]) == v) for st in lp0.body[i + 1:])
+                ok2 = before and after
+            (r.ok if ok2 else r.bad)(m, 'ComponentLevel2._collect_vars.dfs', f"on-path marker {X}[{v}] set before and removed after the recursive call",
+                                     *([] if ok2 else [f"the marker `{X}[{v}]` stays set after the callee was expanded: a helper that is reachable along two "
+                                                       f"paths of an ACYCLIC call graph (f -> g -> k and f -> k) is reported as a call cycle "
+                                                       f"(InvalidFuncCallError on a legal design)", lp0.lineno]))
     # started for every call of every block
     starts = [c for c in ast.walk(f) if isinstance(c, ast.Call) and norm(c.func) == 'dfs' and not any(x is c for x in ast.walk(d))]
     ok = len(starts) == 1 and norm(starts[0].args[0]) == 'call'
@@ -255,8 +345,31 @@ def rule_overlap(repo):
     g = m.get_func('Signal.get_sibling_slices')
     txt = norm(g)
     ok = '_dsl.slices' in txt or 'slices' in txt
-    (r.ok if ok else r.bad)(m, 'Signal.get_sibling_slices', 'enumerates the parent signal\'s slices',
-                            *([] if ok else ["sibling slices are not taken from the parent's slice table", g.lineno]))
+    if ok:
+        # ... of the signal the slice was taken FROM (its parent object): for a slice of a struct field the top-level signal's table is
+        # a different (usually empty) one
+        tabs = [n for n in ast.walk(g) if isinstance(n, ast.Attribute) and n.attr == 'slices']
+        me_ = g.args.args[0].arg
+
+        def owner(e):
+            e = e.value                      # <owner>._dsl.slices  ->  <owner>._dsl
+            if isinstance(e, ast.Attribute) and e.attr == '_dsl':
+                e = e.value
+            if isinstance(e, ast.Name):
+                rv = reaching_value(e.id, e)
+                e = rv if rv is not None else e
+            return norm(e)
+        owners = {owner(t) for t in tabs}
+        good = {f"{me_}.get_parent_object()", f"{me_}._dsl.parent_obj"}
+        if not owners <= good:
+            ok = None
+            r.bad(m, 'Signal.get_sibling_slices', 'enumerates the parent signal\'s slices',
+                  f"sibling slices are read from the slice table of `{sorted(owners - good)[0]}`, not of the signal the slice belongs to "
+                  f"(get_parent_object()): for slices of a struct field the siblings come back empty, so overlapping writers / readers of the "
+                  f"same field are neither rejected nor ordered", g.lineno)
+    if ok is not None:
+        (r.ok if ok else r.bad)(m, 'Signal.get_sibling_slices', 'enumerates the parent signal\'s slices',
+                                *([] if ok else ["sibling slices are not taken from the parent's slice table", g.lineno]))
     # ... on every call: new slices can appear after the first query (add_connection on a fresh slice after elaboration)
     me = g.args.args[0].arg
     memo = [n for n in ast.walk(g) if isinstance(n, (ast.Assign, ast.AugAssign)) for t in (n.targets if isinstance(n, ast.Assign) else [n.target])
@@ -473,8 +586,20 @@ def rule_pairing(repo):
                 if rec['U_U'] != [want] or rec['cobj'] != [(want, 'OBJ')]:
                     ok = False
                     detail = f"sign={sign}: edges {rec['U_U']}, recorded objects {rec['cobj']}, expected {want}"
-    (r.ok if ok else r.bad)(m, FN, "RD/WR(x) < U  =>  (block accessing x, U);   RD/WR(x) > U  =>  (U, block accessing x)",
-                            *([] if ok else ["explicit RD/WR-U constraints are oriented the wrong way round or not recorded under the same key: " + detail, f.lineno]))
+    if ok:
+        # every explicit RD/WR-U constraint is expanded: no condition on sign / kind skips the expansion
+        lp = inner[0]
+        outer2 = enclosing(lp, (ast.For,))
+        skip = [g for g in guards_of(lp) if g.kind in ('if', 'exit') and any(x is g.node for x in ast.walk(outer2))]
+        skip = [g for g in skip if norm(g.test) not in (f"{norm(lp.target)} != co_blk",)]
+        if skip:
+            ok = None
+            r.bad(m, FN, "RD/WR(x) < U  =>  (block accessing x, U);   RD/WR(x) > U  =>  (U, block accessing x)",
+                  f"the expansion of explicit value constraints is skipped under `{norm(skip[0].test)}`: such constraints (e.g. WR(x) < U(blk) for a "
+                  f"block that does not itself access x) never become block-block edges", skip[0].node.lineno)
+    if ok is not None:
+      (r.ok if ok else r.bad)(m, FN, "RD/WR(x) < U  =>  (block accessing x, U);   RD/WR(x) > U  =>  (U, block accessing x)",
+                              *([] if ok else ["explicit RD/WR-U constraints are oriented the wrong way round or not recorded under the same key: " + detail, f.lineno]))
     sel = [s for s in ast.walk(f) if isinstance(s, ast.If) and norm(s.test) == "typ == 'rd'"]
     ok = len(sel) == 1 and {norm(x) for x in sel[0].body} == {'constraints = RD_U', 'equal_blks = read_upblks'} and \
         {norm(x) for x in sel[0].orelse} == {'constraints = WR_U', 'equal_blks = write_upblks'}
@@ -1125,8 +1250,62 @@ def rule_index_scope(repo):
                   reads[0].lineno)
         else:
             r.ok(m, f"DetectVarNames.{f.name}", cons)
+    # per-subscript state: a local that the branches of one loop iteration set conditionally and that is used afterwards must get
+    # its default at the top of EVERY iteration (a default hoisted out of the loop leaks the previous subscript's value)
+    for f in copies:
+        for lp in [n for n in ast.walk(f) if isinstance(n, (ast.While, ast.For))]:
+            top_assigned = {}
+            for i, st in enumerate(lp.body):
+                if isinstance(st, ast.Assign):
+                    for t in st.targets:
+                        for e in ([t] if isinstance(t, ast.Name) else (t.elts if isinstance(t, ast.Tuple) else [])):
+                            if isinstance(e, ast.Name):
+                                top_assigned.setdefault(e.id, i)
+            cond = {}
+            for i, st in enumerate(lp.body):
+                if isinstance(st, (ast.Assign, ast.AugAssign)):
+                    continue
+                for n2 in ast.walk(st):
+                    if isinstance(n2, ast.Name) and isinstance(n2.ctx, ast.Store):
+                        cond.setdefault(n2.id, i)
+            test_names = {x.id for x in ast.walk(lp.test) if isinstance(x, ast.Name)} if isinstance(lp, ast.While) else \
+                {x.id for x in ast.walk(lp.target) if isinstance(x, ast.Name)}
+            for name, first_cond in sorted(cond.items()):
+                # reads that rely on a value set by an EARLIER statement of the iteration (a read preceded by a store inside its own
+                # compound statement is local to that statement)
+                reads = [i for i, st in enumerate(lp.body)
+                         if any(isinstance(n2, ast.Name) and n2.id == name and isinstance(n2.ctx, ast.Load) for n2 in ast.walk(st))
+                         and not _defined_before_use_within(st, name)]
+                if not reads or name in test_names:
+                    continue
+                selfref = any(isinstance(n2, (ast.Assign, ast.AugAssign)) and
+                              (isinstance(n2, ast.AugAssign) or any(isinstance(z, ast.Name) and z.id == name for z in ast.walk(n2.value))) and
+                              any(isinstance(t, ast.Name) and t.id == name for t in (n2.targets if isinstance(n2, ast.Assign) else [n2.target]))
+                              for n2 in ast.walk(lp))
+                if selfref:
+                    continue
+                # a name (re)defined before its first use inside the same nested statement is local to that statement
+                local_only = all(first_cond == i for i in reads) and False
+                cons = f"{f.name}: per-iteration default of `{name}` (loop at +{lp.lineno - f.lineno})"
+                if name in top_assigned and top_assigned[name] <= min(first_cond, min(reads)):
+                    r.ok(m, f"DetectVarNames.{f.name}", cons)
+                elif min(reads) >= first_cond and not any(i > first_cond for i in reads) and name not in top_assigned and \
+                        _defined_before_use_within(lp.body[first_cond], name):
+                    continue      # set and used inside one branch only
+                else:
+                    r.bad(m, f"DetectVarNames.{f.name}", cons,
+                          f"`{name}` is set only under conditions inside the loop and has no unconditional default at the top of the iteration: "
+                          f"a subscript that matches none of the conditions (a non-constant index) inherits the value of the PREVIOUS "
+                          f"subscript (s.out[i][1] is recorded as s.out[1][1])", lp.lineno)
     r.require_floor(4)
     return r
+
+
+def _defined_before_use_within(st, name):
+    """inside the compound statement `st`, every read of `name` is preceded (in source order, same branch) by a store of it"""
+    stores = sorted((n.lineno, n.col_offset) for n in ast.walk(st) if isinstance(n, ast.Name) and n.id == name and isinstance(n.ctx, ast.Store))
+    loads = sorted((n.lineno, n.col_offset) for n in ast.walk(st) if isinstance(n, ast.Name) and n.id == name and isinstance(n.ctx, ast.Load))
+    return bool(stores) and all(any(s_ < l for s_ in stores) for l in loads)
 
 
 def _ancestors(n):
@@ -1307,6 +1486,103 @@ def rule_whole_array(repo):
     return r
 
 
+def rule_const_index(repo):
+    """`s.buf[k]` with k a closure / global constant names the element Python's own indexing names: k = -1 is the last element."""
+    from sa.listwalk import ListWalk, Raised
+    r = RuleResult('R-C02-const-index', "a constant list index (closure / global, also negative) resolves to exactly the element Python's "
+                                        "list indexing gives; an index outside the list resolves to nothing")
+    m = repo.mod(L2)
+    f = m.get_func('ComponentLevel2._elaborate_read_write_func.extract_obj_from_names.expand_array_index')
+    fq = 'ComponentLevel2._elaborate_read_write_func.extract_obj_from_names.expand_array_index'
+    params = [a.arg for a in f.args.args]
+    if len(params) != 5:
+        raise AnalysisError(f"{fq}: signature changed ({params})")
+    lst = ['e0', 'e1', 'e2']
+    for k in (-4, -3, -1, 0, 2, 3):
+        got = []
+
+        def lookup_variable(obj, nd, nod, got=got):
+            got.append(obj)
+        w = ListWalk({'NamedObject', 'Signal'}, env={'objs': set(), '_closure': {'K': k}, '_globals': {}, 'nodelist': [None, None, None],
+                                                       'func': 'F', 's': 'S'},
+                     funcs={'lookup_variable': lookup_variable, 'expand_array_index': f, 'slice': slice}, assert_raises=True)
+        try:
+            w.invoke(f, [lst, 1, 1, 0, [(True, 'K')]])
+            out = ('resolved', got)
+        except Raised as e:
+            out = ('raised', e.name)
+        r.evaluations += 1
+        want = ('resolved', [lst[k]]) if -len(lst) <= k < len(lst) else ('resolved', [])
+        ok = out == want
+        (r.ok if ok else r.bad)(m, fq, f"index {k} into a list of {len(lst)}",
+                                *([] if ok else [f"s.buf[K] with the constant K = {k} gives {out}, Python's indexing gives "
+                                                 f"{want[1] if want[1] else 'IndexError (nothing)'}: the element the block really accesses is not the one "
+                                                 f"recorded (no edge, not double-buffered)", f.lineno]))
+    r.require_floor(6)
+    return r
+
+
+OPENLOOP = 'pymtl3/passes/autotick/OpenLoopCLPass.py'
+
+
+def rule_openloop_vertices(repo):
+    """In the open-loop (auto-tick) flow the vertices of a top-level callee are its port objects, while GenDAGPass states the
+    constraints on the raw functions behind them: every port that is a vertex must be reachable through the raw-function map,
+    or the constraints that name it are dropped."""
+    r = RuleResult('R-C02-openloop-vertices', "every top-level callee port that becomes a vertex of the open-loop schedule (method ports, and "
+                                              "both the method and the rdy of non-blocking interfaces) is entered in the raw-function -> port map "
+                                              "through which the method constraints are translated")
+    m = repo.mod(OPENLOOP)
+    f = m.get_func('OpenLoopCLPass.schedule_with_top_level_callee')
+    fq = 'OpenLoopCLPass.schedule_with_top_level_callee'
+    # the map that translates constraint operands: `if xx in M: xx = M[xx]`
+    maps = set()
+    for n in ast.walk(f):
+        if isinstance(n, ast.If) and isinstance(n.test, ast.Compare) and len(n.test.ops) == 1 and isinstance(n.test.ops[0], ast.In) \
+                and len(n.body) == 1 and isinstance(n.body[0], ast.Assign) and isinstance(n.body[0].value, ast.Subscript) \
+                and norm(n.body[0].value.value) == norm(n.test.comparators[0]) and norm(n.body[0].targets[0]) == norm(n.test.left):
+            maps.add(norm(n.test.comparators[0]))
+    all_verts = {norm(c.args[0]) for c in ast.walk(f) if isinstance(c, ast.Call) and norm(c.func) == 'V.add' and c.args}
+    raw_maps = set()
+    for mp in maps:
+        # keep the map keyed by raw functions: its keys are not themselves vertex expressions
+        keys = []
+        for n in ast.walk(f):
+            if isinstance(n, ast.Assign) and isinstance(n.targets[0], ast.Subscript) and norm(n.targets[0].value) == mp:
+                k = n.targets[0].slice
+                kv = reaching_value(k.id, n) if isinstance(k, ast.Name) else k
+                keys.append(norm(kv) if kv is not None else norm(k))
+        if keys and not any(k in all_verts for k in keys):
+            raw_maps.add(mp)
+    if len(raw_maps) != 1:
+        raise AnalysisError(f"{fq}: the raw-function -> callee-port map was not identified ({sorted(maps)})")
+    M = next(iter(raw_maps))
+    loops = [n for n in f.body if isinstance(n, ast.For) and any(isinstance(c, ast.Call) and norm(c.func) == 'V.add' for c in ast.walk(n))]
+    if len(loops) < 2:
+        raise AnalysisError(f"{fq}: the loops that create the callee vertices were not found")
+    for lp in loops:
+        verts = [norm(c.args[0]) for c in ast.walk(lp) if isinstance(c, ast.Call) and norm(c.func) == 'V.add' and c.args]
+        mapped = {norm(n.value) for n in ast.walk(lp) if isinstance(n, ast.Assign) and isinstance(n.targets[0], ast.Subscript)
+                  and norm(n.targets[0].value) == M}
+        for v in verts:
+            ok = v in mapped
+            (r.ok if ok else r.bad)(m, fq, f"vertex `{v}` (loop over {norm(lp.iter)}) is a value of {M}",
+                                    *([] if ok else [f"`{v}` is added to the vertex set but never entered in {M}: a constraint stated on the raw function behind "
+                                                     f"it (e.g. U(up) < M(ifc.rdy)) is not translated to the vertex and silently dropped -- the rdy is "
+                                                     f"evaluated before the block that computes it", lp.lineno]))
+            if ok:
+                # the key under which it is entered is the raw function of the same port
+                for n in ast.walk(lp):
+                    if isinstance(n, ast.Assign) and isinstance(n.targets[0], ast.Subscript) and norm(n.targets[0].value) == M and norm(n.value) == v:
+                        k = n.targets[0].slice
+                        kv = reaching_value(k.id, n) if isinstance(k, ast.Name) else k
+                        good = kv is not None and norm(kv) in (f"get_raw_method({v})", f"{v}.method")
+                        if not good:
+                            r.bad(m, fq, f"{M}[{norm(k)}] = {v}", f"the key `{norm(kv) if kv is not None else norm(k)}` is not the raw function of `{v}`", n.lineno)
+    r.require_floor(3)
+    return r
+
+
 def _cache_mutations(top):
     """(tainted names, nested walkers reached, [(node, text)]): stores / mutating calls through names derived from the second
     parameter of `top` (iteration, subscripting, unpacking, arguments of the nested functions)"""
@@ -1419,8 +1695,17 @@ def rule_scc_blocks(repo):
     return out
 
 
-RULES = [rule_visitor, rule_funcfold, rule_overlap, rule_pairing, rule_netblk, rule_kahn, rule_greenlet, rule_novar_cycle, rule_cache_scope,
-         rule_methods, rule_index_scope, rule_scc_blocks, rule_cache_readonly, rule_constraint_entry, rule_whole_array]
+def rule_replace_keeps_edges(repo):
+    """after replace_component the read / write / call sets of the surviving blocks (of every ancestor) must name the new
+    component's signals: the writer-before-reader edges are derived from exactly these sets at the next GenDAGPass.  Decided by
+    C15 (R-C15-saved).  C15's finding D22 (explicit constraints of the parent that name the replaced child are neither removed
+    nor re-targeted) is an ordering matter as well -- "explicit constraints are honoured" -- and is listed for C02 too."""
+    from rules.c15 import rule_saved
+    return rule_saved(repo)
+
+
+RULES = [rule_replace_keeps_edges, rule_visitor, rule_funcfold, rule_overlap, rule_pairing, rule_netblk, rule_kahn, rule_greenlet, rule_novar_cycle, rule_cache_scope,
+         rule_methods, rule_index_scope, rule_scc_blocks, rule_cache_readonly, rule_constraint_entry, rule_whole_array, rule_const_index, rule_openloop_vertices]
 
 
 def _m(name, file, old, new, rule=None, count=1):
@@ -1428,6 +1713,17 @@ def _m(name, file, old, new, rule=None, count=1):
 
 
 MUTANTS = [
+    _m('call-base-not-visited', ASTH, "        self.visit( node )\n        return None, None\n", "        return None, None\n", 'R-C02-visitor', count=2),
+    _m('slice-bounds-of-call-result-not-visited', ASTH, "    if not obj_name:\n      self.visit( node.slice ) # f( s.a )[ s.i : s.i+4 ] still reads s.i\n      return\n", "    if not obj_name:  return\n", 'R-C02-visitor'),
+    _m('args-of-unresolvable-callee-not-visited', ASTH, "    if obj_name:\n      self.calls.append( (obj_name, nodelist, None) )\n", "    if not obj_name:  return\n\n    self.calls.append( (obj_name, nodelist, None) )\n", 'R-C02-visitor'),
+    _m('other-base-kinds-silently-nameless', ASTH, "        assert isinstance( node, ast.Str ) # filter out line_trace\n", "        pass\n", 'R-C02-visitor', count=2),
+    _m('openloop-rdy-not-mapped', OPENLOOP, "      method_callee_mapping[m] = x.method\n      method_callee_mapping[r] = x.rdy\n", "      method_callee_mapping[m] = x.method\n", 'R-C02-openloop-vertices'),
+    _m('openloop-rdy-mapped-under-method-key', OPENLOOP, "      method_callee_mapping[r] = x.rdy\n", "      method_callee_mapping[m] = x.rdy\n", 'R-C02-openloop-vertices'),
+    _m('const-index-negative-rejected', L2, "          try:\n            child = obj[ current_idx ]\n          except TypeError: # cannot convert to integer", "          if isinstance( current_idx, int ) and not 0 <= current_idx < len( obj ):\n            return\n          try:\n            child = obj[ current_idx ]\n          except TypeError: # cannot convert to integer", 'R-C02-const-index'),
+    _m('explicit-default-direction-not-expanded', GENDAG, "        for (sign, co_blk) in constrained_blks:\n", "        for (sign, co_blk) in constrained_blks:\n\n          if (typ == 'rd') == (sign == -1):\n            continue\n", 'R-C02-pairing'),
+    _m('index-default-hoisted-out-of-loop', ASTH, "      num = []\n      while isinstance( node, ast.Subscript ):\n        v = node.slice\n        n = \"*\"\n", "      num = []\n      n   = \"*\"\n      while isinstance( node, ast.Subscript ):\n        v = node.slice\n", 'R-C02-index-scope', count='first'),
+    _m('funcfold-path-marker-not-removed', L2, "              dfs( v, stk )\n              del caller[ v ]\n", "              dfs( v, stk )\n", 'R-C02-funcfold'),
+    _m('sibling-slices-from-top-level-signal', CONN, "      parent = s.get_parent_object()\n      ret = list(parent._dsl.slices.values())", "      parent = s.get_top_level_signal()\n      ret = list(parent._dsl.slices.values())", 'R-overlap'),
     _m('whole-array-two-levels-only', L2, "            Q = [ *obj ] # PEP 448 -- see https://stackoverflow.com/a/43220129/6470797\n            while Q:\n              m = Q.pop()\n              if isinstance( m, NamedObject ):\n                objs.add( m )\n              elif isinstance( m, list ):\n                Q.extend( m )",
        "            for m in obj:\n              if isinstance( m, NamedObject ):\n                objs.add( m )\n              elif isinstance( m, list ):\n                objs.update( x for x in m if isinstance( x, NamedObject ) )", 'R-C02-whole-array'),
     _m('callee-constraint-class-member-lost', GENDAG, "            top._dag.top_level_callee_constraints.add( (xx, zz) )", "            top._dag.top_level_callee_constraints.add( (xx, yy) )", 'R-C02-constraint-entry'),
